@@ -23,6 +23,14 @@ def hexs(b):
     return b.hex()
 
 
+def inp(data):
+    """replay fields for an input: whole when small, else a prefix + length + digest (the label and the seed regenerate it)"""
+    import hashlib
+    whole = len(data) <= 65536
+    return {"input_hex": hexs(data if whole else data[:4000]), "input_len": len(data), "input_whole": whole,
+            "input_sha256": hashlib.sha256(data).hexdigest()}
+
+
 # ---------------------------------------------------------------------------------- structured inputs
 def nest(kind, d):
     if kind == "parens":
@@ -103,6 +111,20 @@ def structured_source(quick):
         ("cyclic-vec-compare", b"let v = Vec[null]\nv.push(v)\nlet w = Vec[null]\nw.push(w)\nprint(v == w)"),
         ("deep-vec-print", b"let mut v = Vec[null]\nlet mut i = 0\nwhile i < 5000 {\n  let w = Vec[null]\n  w.push(v)\n  v = w\n  i = i + 1\n}\nprint(v)"),
     ]
+    # a diagnostic far to the right on one line (the caret line is padded up to the column)
+    for col in (65534, 65535, 65536, 70000) if quick else (255, 256, 32767, 32768, 65534, 65535, 65536, 70000, 1 << 20):
+        pad = " " * col
+        out += [
+            (f"far-column-lex-error-{col}", (pad + "let a = 1 $ 2").encode()),
+            (f"far-column-parse-error-{col}", (pad + "let = 1").encode()),
+            (f"far-column-sem-error-{col}", (pad + "print(undefined_thing)").encode()),
+            (f"far-column-type-error-{col}", (pad + 'let a: int = "s"').encode()),
+            (f"far-column-warning-{col}", (pad + 'print(1 == "a")').encode()),
+            (f"far-column-shadow-warning-{col}", ("let x = 1\n" + pad + "{ let x = 2\nprint(x) }").encode()),
+            (f"far-column-runtime-error-{col}", (pad + "print(1 / 0)").encode()),
+            (f"far-column-wide-span-{col}", ("print(" + "a" * col + ")").encode()),
+            (f"far-column-after-multibyte-{col}", ('let s = "' + "\u00e9" * col + '"; print(undefined_thing)').encode()),
+        ]
     big = 20000 if quick else 1000000
     out += [
         ("huge-int", ("let a = " + "9" * big).encode()), ("huge-float", ("let a = 1." + "0" * big + "e999999").encode()),
@@ -645,7 +667,7 @@ def run(ctx):
                     sig = signature(kind, label, data, o.split(":")[1] if ":" in o else "", o)
                     note_sig(ctx, sig + " (release)", label)
                     ctx.violation(sig, f"in-process (release profile) {kind} input `{label}` ({len(data)} bytes): {o}",
-                                  {"kind": kind, "label": label, "input_hex": hexs(data[:4000]), "input_len": len(data), "outcome": o, "where": "hx_fuzz release profile"})
+                                  {"kind": kind, "label": label, **inp(data), "outcome": o, "where": "hx_fuzz release profile"})
             ctx.cov["evaluations"] += len(inputs)
         else:
             ctx.broken.append("harness build failed (hx_fuzz, release)")
@@ -661,7 +683,7 @@ def run(ctx):
             sig = signature(kind, label, data, stage, o)
             note_sig(ctx, sig, label)
             ctx.violation(sig, f"in-process {kind} input `{label}` ({len(data)} bytes): {o}",
-                          {"kind": kind, "label": label, "input_hex": hexs(data[:4000]), "input_len": len(data), "outcome": o, "where": "hx_fuzz (dev profile: opt-level 2, debug assertions, 8 MiB stack)"})
+                          {"kind": kind, "label": label, **inp(data), "outcome": o, "where": "hx_fuzz (dev profile: opt-level 2, debug assertions, 8 MiB stack)"})
     ctx.cov["evaluations"] += len(inputs)
     ctx.cov["inprocess"] = dict(stats)
     # ---- .avbc accept/reject against the model
@@ -738,7 +760,7 @@ def run(ctx):
                     sig = signature(kind, label, data, cname, res)
                     note_sig(ctx, sig, label)
                     ctx.violation(sig, f"`aelys {' '.join(args[:2])}` on {kind} input `{label}` ({len(data)} bytes): {res}",
-                                  {"kind": kind, "label": label, "input_hex": hexs(data[:4000]), "input_len": len(data), "cmd": args, "outcome": res,
+                                  {"kind": kind, "label": label, **inp(data), "cmd": args, "outcome": res,
                                    "where": "aelys-cli debug build of the current tree, 8 MiB stack, 4 GiB address space, 20 s"})
         ctx.cov["cli"] = dict(cstats)
         ctx.cov["cli_diagnostics_reached"] = dict(DIAG.most_common(40))
